@@ -347,7 +347,7 @@ Proof.
   split. { vm_compute. reflexivity. }
   split. { split; [exact W7|]. split; vm_compute; reflexivity. }
   split. { vm_compute. reflexivity. }
-  split. { exact demo_read_ok. }
+  split. { pose proof demo_read_ok as R. unfold demo_read, demo_G, demo7, run in *. cbn [fold_left] in *. exact R. }
   split. { vm_compute. reflexivity. }
   exact I.
 Qed.
